@@ -34,10 +34,14 @@ const P_LAYOUT: &str = "struct Particle { float3 position; float life; float3 ve
 // function gets is computed from a walk over the called intrinsics
 const P_PAYLOADS: &str = "#define TASK_GROUP_SIZE 32\n\nstruct PayloadSmall\n{\n    uint start_location;\n};\n\nstruct PayloadLarge\n{\n    uint start_location;\n    uint4 extra;\n};\n\nstruct PayloadMid\n{\n    uint start_location;\n    uint2 extra;\n};\n\nstruct PayloadWide\n{\n    uint start_location;\n    float4 extra[2];\n};\n\ngroupshared PayloadSmall lds_small;\ngroupshared PayloadMid lds_mid;\ngroupshared PayloadWide lds_wide;\ngroupshared PayloadLarge lds_large;\n\n[numthreads(TASK_GROUP_SIZE, 1, 1)]\nvoid TaskEntry(uint3 dtid : SV_DispatchThreadID) {\n    lds_small.start_location = dtid.x;\n    lds_large.start_location = dtid.x;\n    lds_large.extra = uint4(0u, 1u, 2u, 3u);\n\n    if (dtid.x < 16u) {\n        DispatchMesh(4u, 1u, 1u, lds_small);\n    } else if (dtid.x < 20u) {\n        DispatchMesh(3u, 1u, 1u, lds_mid);\n    } else if (dtid.x < 24u) {\n        DispatchMesh(5u, 1u, 1u, lds_wide);\n    } else {\n        DispatchMesh(2u, 1u, 1u, lds_large);\n    }\n}\n\nstruct VertexAttributes\n{\n    float4 position : SV_Position;\n};\n\n[numthreads(TASK_GROUP_SIZE, 1, 1)]\n[outputtopology(\"triangle\")]\nvoid MeshEntry(\n    uint3 dtid : SV_DispatchThreadID,\n    in payload PayloadSmall data,\n    out vertices VertexAttributes o_vertices[TASK_GROUP_SIZE],\n    out indices uint3 o_triangles[TASK_GROUP_SIZE]\n) {\n    SetMeshOutputCounts(TASK_GROUP_SIZE, TASK_GROUP_SIZE);\n\n    VertexAttributes vertex;\n    vertex.position = float4(data.start_location, 0, 0, 1);\n    o_vertices[dtid.x] = vertex;\n\n    o_triangles[dtid.x] = uint3(0, 1, 2);\n}\n\nPipeline Test\n{\n    TaskShader = TaskEntry;\n    MeshShader = MeshEntry;\n}\n";
 
+// diagnostics chosen among several candidates: properties of a pipeline / of a static sampler given twice, several of them
+const P_ERR_DUP: &str = "float4 VSMAIN() : SV_Position { return float4(0.0f, 0.0f, 0.0f, 1.0f); }\nfloat4 PSMAIN() : SV_Target0 { return float4(1.0f, 1.0f, 1.0f, 1.0f); }\nPipeline Demo\n{\n    VertexShader = VSMAIN;\n    PixelShader = PSMAIN;\n    CullMode = Back;\n    WindingOrder = Clockwise;\n    DepthTargetFormat = \"D32_FLOAT\";\n    VertexShader = VSMAIN;\n    PixelShader = PSMAIN;\n    CullMode = Back;\n    WindingOrder = Clockwise;\n    DepthTargetFormat = \"D32_FLOAT\";\n}\n";
+const P_ERR_DUP2: &str = "const SamplerState g_s = StaticSampler\n{\n    Filter = MIN_MAG_MIP_LINEAR;\n    AddressU = Clamp;\n    AddressV = Clamp;\n    AddressW = Clamp;\n    Filter = MIN_MAG_MIP_LINEAR;\n    AddressU = Clamp;\n    AddressV = Clamp;\n    AddressW = Clamp;\n};\nvoid main() {}\n";
+
 fn sources() -> Vec<(String, String)> {
     let mut v: Vec<(String, String)> = vec![
         ("names".into(), P_NAMES.into()), ("groups".into(), P_GROUPS.into()), ("globals".into(), P_GLOBALS.into()),
-        ("templates".into(), P_TEMPLATES.into()), ("err-a".into(), P_ERR_A.into()), ("err-b".into(), P_ERR_B.into()), ("layout".into(), P_LAYOUT.into()), ("err-enum".into(), P_ERR_ENUM.into()), ("err-enum2".into(), P_ERR_ENUM2.into()), ("literals".into(), P_LITERALS.into()), ("positions".into(), P_POSITIONS.into()), ("payloads".into(), P_PAYLOADS.into()),
+        ("templates".into(), P_TEMPLATES.into()), ("err-a".into(), P_ERR_A.into()), ("err-b".into(), P_ERR_B.into()), ("layout".into(), P_LAYOUT.into()), ("err-enum".into(), P_ERR_ENUM.into()), ("err-enum2".into(), P_ERR_ENUM2.into()), ("literals".into(), P_LITERALS.into()), ("positions".into(), P_POSITIONS.into()), ("payloads".into(), P_PAYLOADS.into()), ("err-dup".into(), P_ERR_DUP.into()), ("err-dup2".into(), P_ERR_DUP2.into()),
     ];
     let root = std::env::var("RSSL_REPO").unwrap_or("/repo".into());
     for dir in ["tests/basic", "hlsl/tests", "msl/tests"] {
